@@ -524,6 +524,8 @@ def check_serialisation(module, indents=(4, None, 0, '\t')):
             return 'eval(dump(indent=%r)): %s' % (ind, r)
         if m2.get_code() != code or m2.dump() != d0:
             return 'eval(dump(indent=%r)) has different code/dump' % (ind,)
+    if hasattr(module, 'get_used_names'):
+        module.get_used_names()          # derived caches live in the tree and are serialised with it
     for proto in (pickle.HIGHEST_PROTOCOL, 2):
         m3 = pickle.loads(pickle.dumps(module, proto))
         r = _same_tree(module, m3)
